@@ -3,6 +3,8 @@
 #include "../common/harness.h"
 #include "../sched/bodies.h"
 #include "../sched/vsched.h"
+#include <sys/wait.h>
+#include <unistd.h>
 
 using bodies::Harness;
 using bodies::Obs;
@@ -53,15 +55,131 @@ static RunOut run_once(const Harness& h, const std::vector<Obs>& seq, const std:
   return out;
 }
 
-struct Job { const Harness* h; bool coarse; int bound; };
+struct Job { const Harness* h; bool coarse; int bound; bool cold = false; };
+
+// ---- cold start: one fresh process per execution -----------------------------------------------
+// The calling process must never have touched cctz (function-local statics uninitialised); the child
+// runs the schedule FIRST (so UTCImpl / TimeZoneMutex / LoadMutex are initialised under the explored
+// schedule, their guards being scheduling points), then computes the single-threaded reference.
+static void put_str(std::string& o, const std::string& s) { o += std::to_string(s.size()) + ":" + s; }
+static bool get_str(const std::string& in, size_t* p, std::string* s) {
+  size_t c = in.find(':', *p);
+  if (c == std::string::npos) return false;
+  size_t n = static_cast<size_t>(atoll(in.substr(*p, c - *p).c_str()));
+  if (c + 1 + n > in.size()) return false;
+  *s = in.substr(c + 1, n);
+  *p = c + 1 + n;
+  return true;
+}
+static RunOut run_once_cold(const Harness& h, const std::vector<int>& prefix, unsigned mask, bool* child_died) {
+  RunOut out;
+  *child_died = false;
+  int fds[2];
+  if (pipe(fds) != 0) { *child_died = true; return out; }
+  fflush(nullptr);
+  pid_t pid = fork();
+  if (pid == 0) {
+    close(fds[0]);
+    bodies::world().reset_exec(h.threads.size());
+    std::vector<Obs> obs(h.threads.size());
+    std::vector<std::function<void()>> bodies_;
+    for (size_t t = 0; t < h.threads.size(); ++t) bodies_.push_back([&h, &obs, t] { bodies::run_ops(h.threads[t], &obs[t]); });
+    vsched::Exec ex = vsched::run(bodies_, prefix, mask);
+    std::string o;
+    o += std::to_string(ex.deadlock ? 1 : 0) + " " + std::to_string(ex.diverged ? 1 : 0) + " " + std::to_string(ex.points.size()) + "\n";
+    for (auto& p : ex.points) {
+      o += std::to_string(p.chosen) + " " + std::to_string(p.running_enabled ? 1 : 0) + " " + std::to_string(p.kind) + " " + std::to_string(p.enabled.size());
+      for (int e : p.enabled) o += " " + std::to_string(e);
+      o += "\n";
+    }
+    std::string tail;
+    put_str(tail, ex.deadlock_info);
+    if (!ex.deadlock && !ex.diverged) {
+      // keep what the racing threads observed, then derive the single-threaded reference in this same process
+      const std::vector<bodies::FactoryEvent> saved_flog = bodies::world().flog;  // factory log of the concurrent run
+      const std::map<std::string, int> saved_calls = bodies::world().fcalls;
+      std::vector<Obs> seq(h.threads.size());
+      cctz::time_zone::Impl::ClearTimeZoneMapTestOnly();
+      bodies::world().reset_exec(h.threads.size());
+      for (size_t t = 0; t < h.threads.size(); ++t) bodies::run_ops(h.threads[t], &seq[t]);
+      // restore the concurrent run's cache view is not possible; identities are compared among the racing threads
+      bodies::world().flog = saved_flog;
+      bodies::world().fcalls = saved_calls;
+      Verdict v = bodies::judge(h, obs, seq, false);
+      // the "later re-load" predicate of judge() is not meaningful after the cache was cleared: drop those lines
+      std::vector<std::string> c13;
+      for (auto& x : v.c13) if (x.find("later re-load") == std::string::npos) c13.push_back(x);
+      std::string dig;
+      for (auto& ob : obs) for (auto& rr : ob.res) dig += rr + "|";
+      dig += "#" + v.outcome;
+      put_str(tail, dig);
+      tail += std::to_string(c13.size()) + " ";
+      for (auto& x : c13) put_str(tail, x);
+      // C20: ignore the factory calls of the sequential reference (the log was restored before judging)
+      tail += std::to_string(v.c20.size()) + " ";
+      for (auto& x : v.c20) put_str(tail, x);
+    }
+    o += tail;
+    size_t off = 0;
+    while (off < o.size()) { ssize_t w = write(fds[1], o.data() + off, o.size() - off); if (w <= 0) break; off += static_cast<size_t>(w); }
+    close(fds[1]);
+    fflush(nullptr);
+    _exit(0);
+  }
+  close(fds[1]);
+  std::string in;
+  char buf[4096];
+  ssize_t n;
+  while ((n = read(fds[0], buf, sizeof buf)) > 0) in.append(buf, static_cast<size_t>(n));
+  close(fds[0]);
+  int st = 0;
+  waitpid(pid, &st, 0);
+  if (!WIFEXITED(st) || WEXITSTATUS(st) != 0 || in.empty()) { *child_died = true; return out; }
+  std::istringstream is(in);
+  int dl = 0, dv = 0; size_t np = 0;
+  is >> dl >> dv >> np;
+  out.ex.deadlock = dl != 0; out.ex.diverged = dv != 0;
+  for (size_t i = 0; i < np; ++i) {
+    vsched::PointRec p; int re = 0; size_t ne = 0;
+    is >> p.chosen >> re >> p.kind >> ne;
+    p.running_enabled = re != 0;
+    for (size_t k = 0; k < ne; ++k) { int e; is >> e; p.enabled.push_back(e); }
+    p.tid = p.enabled.empty() ? -1 : p.enabled[p.chosen];
+    out.ex.points.push_back(p);
+  }
+  std::string rest;
+  { std::string line; std::getline(is, line); std::ostringstream o; o << is.rdbuf(); rest = o.str(); }
+  size_t pp = 0;
+  get_str(rest, &pp, &out.ex.deadlock_info);
+  if (!out.ex.deadlock && !out.ex.diverged) {
+    get_str(rest, &pp, &out.obs_digest);
+    for (int which = 0; which < 2; ++which) {
+      size_t sp = rest.find(' ', pp);
+      if (sp == std::string::npos) break;
+      int cnt = atoi(rest.substr(pp, sp - pp).c_str());
+      pp = sp + 1;
+      for (int i = 0; i < cnt; ++i) { std::string x; if (!get_str(rest, &pp, &x)) break; (which == 0 ? out.v.c13 : out.v.c20).push_back(x); }
+    }
+  }
+  return out;
+}
 
 static void explore_job(const Job& job, int shard, int nshards, const hz::Args& a, hz::Result& r) {
   const Harness& h = *job.h;
   const unsigned mask = job.coarse ? vsched::mask_coarse() : vsched::mask_all();
-  const std::string tag = h.id + (job.coarse ? ":coarse" : ":b" + std::to_string(job.bound));
-  std::vector<Obs> seq = sequential_reference(h);
+  const std::string tag = h.id + (job.cold ? ":cold" : "") + (job.coarse ? ":coarse" : ":b" + std::to_string(job.bound));
+  std::vector<Obs> seq;
+  bool died = false;
+  auto exec = [&](const std::vector<int>& prefix) -> RunOut {
+    if (!job.cold) return run_once(h, seq, prefix, mask);
+    bool d = false;
+    RunOut o = run_once_cold(h, prefix, mask, &d);
+    if (d) { died = true; o.ex.diverged = true; }
+    return o;
+  };
+  if (!job.cold) seq = sequential_reference(h);
   // first level: default execution and its children, dealt round-robin to the shards
-  RunOut e0 = run_once(h, seq, {}, mask);
+  RunOut e0 = exec({});
   std::vector<std::vector<int>> roots;
   if (!e0.ex.deadlock && !e0.ex.diverged) {
     std::vector<int> ch = e0.ex.choices();
@@ -83,8 +201,9 @@ static void explore_job(const Job& job, int shard, int nshards, const hz::Args& 
     r.count("schedules:" + tag);
     r.count("transitions", static_cast<long long>(o.ex.points.size()));
     int pre = o.ex.preemptions_before(o.ex.points.size());
-    r.cls("C13:" + h.id + (job.coarse ? ":coarse" : "") + ":preemptions=" + std::to_string(pre > 4 ? 5 : pre));
-    std::vector<std::string> ra = {"--harness", h.id, "--coarse", job.coarse ? "1" : "0", "--choices", join_choices(choices)};
+    r.cls("C13:" + h.id + (job.cold ? ":cold" : "") + (job.coarse ? ":coarse" : "") + ":preemptions=" + std::to_string(pre > 4 ? 5 : pre));
+    std::vector<std::string> ra = {"--harness", h.id, "--coarse", job.coarse ? "1" : "0", "--cold", job.cold ? "1" : "0", "--choices", join_choices(choices)};
+    if (o.ex.diverged && died) { r.violation("C13:crash:" + h.id, "the process executing " + tag + " under schedule [" + join_choices(choices) + "] died (sanitizer report or abort)", ra); return false; }
     if (o.ex.diverged) { r.note("BROKEN: schedule prefix diverged in " + tag + " at " + join_choices(choices)); return false; }
     if (o.ex.deadlock) {
       r.violation("C13:deadlock:" + h.id, "deadlock in " + tag + " under schedule [" + join_choices(choices) + "]: " + o.ex.deadlock_info, ra);
@@ -94,7 +213,7 @@ static void explore_job(const Job& job, int shard, int nshards, const hz::Args& 
     const std::vector<std::string>& vv = (g_prop == "C20") ? o.v.c20 : o.v.c13;
     if (!vv.empty() && viol_here < 3) {
       // replay twice before reporting: same schedule must give the same observations
-      RunOut a1 = run_once(h, seq, choices, mask), a2 = run_once(h, seq, choices, mask);
+      RunOut a1 = exec(choices), a2 = exec(choices);
       if (a1.obs_digest != o.obs_digest || a2.obs_digest != o.obs_digest) {
         r.note("BROKEN: schedule [" + join_choices(choices) + "] of " + tag + " is not reproducible");
         return false;
@@ -124,7 +243,7 @@ static void explore_job(const Job& job, int shard, int nshards, const hz::Args& 
     RunOut last;
     long long n_in_root = 0;
     vsched::explore(
-        [&](const std::vector<int>& prefix) { last = run_once(h, seq, prefix, mask); if ((++n_in_root & 63) == 0) hz::tick(); return last.ex; },
+        [&](const std::vector<int>& prefix) { last = exec(prefix); if ((++n_in_root & 63) == 0) hz::tick(); return last.ex; },
         job.bound, roots[k], job.coarse, cap,
         [&](const vsched::Exec& x) {
           if (!handle(last, x.choices())) { stop_all = true; return false; }
@@ -149,6 +268,8 @@ static std::vector<Job> jobs_for(const hz::Args& a, std::vector<Harness>& fine, 
     jobs.push_back({&h, false, b});
   }
   for (auto& h : coarse) jobs.push_back({&h, true, -1});
+  // cold start (statics uninitialised, one fresh process per execution)
+  for (auto& h : fine) if (h.id == "H1" || h.id == "H4" || h.id == "H5" || h.id == "H5b" || h.id == "H5c") { const bool big = (h.id == "H4" || h.id == "H5b"); Job j{&h, false, a.thorough() ? (big ? 2 : 3) : (big ? 1 : 2)}; j.cold = true; jobs.push_back(j); }
   return jobs;
 }
 
@@ -163,11 +284,14 @@ int main(int argc, char** argv) {
     std::string id = a.get("--harness");
     bool co = a.get("--coarse") == "1";
     for (auto* hs : {&fine, &coarse}) for (auto& h : *hs) if (h.id == id) {
-      std::vector<Obs> seq = sequential_reference(h);
       std::vector<int> ch = split_choices(a.get("--choices"));
-      RunOut o1 = run_once(h, seq, ch, co ? vsched::mask_coarse() : vsched::mask_all());
+      const bool cold = a.get("--cold") == "1";
+      std::vector<Obs> seq;
+      if (!cold) seq = sequential_reference(h);
+      bool dd = false;
+      RunOut o1 = cold ? run_once_cold(h, ch, vsched::mask_all(), &dd) : run_once(h, seq, ch, co ? vsched::mask_coarse() : vsched::mask_all());
       if (o1.ex.deadlock) { total.violation("C13:deadlock:" + h.id, "deadlock on replay: " + o1.ex.deadlock_info, {}); return hz::finish(a, total); }
-      RunOut o2 = run_once(h, seq, ch, co ? vsched::mask_coarse() : vsched::mask_all());
+      RunOut o2 = cold ? run_once_cold(h, ch, vsched::mask_all(), &dd) : run_once(h, seq, ch, co ? vsched::mask_coarse() : vsched::mask_all());
       if (o1.obs_digest != o2.obs_digest || o1.ex.diverged) total.note("BROKEN: replay not reproducible");
       const std::vector<std::string>& vv = (g_prop == "C20") ? o1.v.c20 : o1.v.c13;
       std::string msg;
@@ -203,7 +327,7 @@ int main(int argc, char** argv) {
   for (auto& kv : total.classes) if (kv.first.compare(0, 8, "outcome:") == 0) { std::string t = kv.first.substr(8, kv.first.rfind(':') - 8); per[t]++; }
   for (auto& kv : per) total.counters["distinct_outcomes:" + kv.first] = kv.second;
   for (auto& j : jobs) {
-    std::string tag = j.h->id + (j.coarse ? ":coarse" : ":b" + std::to_string(j.bound));
+    std::string tag = j.h->id + (j.cold ? ":cold" : "") + (j.coarse ? ":coarse" : ":b" + std::to_string(j.bound));
     if (!only.empty() && j.h->id != only) continue;
     if (j.h->expect_contention && per[tag] < 2 && total.nviol == 0 && total.exhaustive)
       total.note("BROKEN: harness " + tag + " produced a single outcome over all schedules: the threads never collided (vacuous)");
